@@ -319,7 +319,11 @@ func (w *World) Restart() []Token {
 	w.conns.ProcessDied()
 	w.startWatchers()
 	synctest.Wait()
-	return w.TakeTokens()
+	toks := w.TakeTokens()
+	for i := range toks {
+		toks[i].Src = "replay"
+	}
+	return toks
 }
 
 // ---- snapshot / restore / canonical form ----
